@@ -609,6 +609,12 @@ func (fr *Frame) loopVars(li *loopInfo, st State, phiVal func(*ssa.Phi) Value) m
 				pick = c
 			}
 		}
+		// an address-taken local is its Alloc cell: the value first stored into it is not the variable
+		for _, c := range cands {
+			if al, ok := c.(*ssa.Alloc); ok && al.Comment == name && !li.blocks[al.Block()] && al.Block().Dominates(li.header) {
+				pick, n, ambiguous = al, 1, false
+			}
+		}
 		if ambiguous && pick != nil {
 			// branch-local definitions are fine when a later merge (phi) dominating the loop was picked
 			if phi, ok := pick.(*ssa.Phi); ok && phi.Block().Dominates(li.header) {
